@@ -236,6 +236,9 @@ pub struct SendCase {
     /// the LINK splits the large message (sender max-message-size 400): the frames of one delivery are handed
     /// to the session one by one, each through its own await
     pub link_split: bool,
+    /// the SENDER's max-message-size equals the encoded size of the cancelled message exactly: it
+    /// fits, so the link must hand it over as ONE transfer (no await between pieces of a delivery)
+    pub exact_fit: bool,
 }
 
 #[derive(Debug, Clone, Default)]
@@ -276,7 +279,13 @@ pub async fn send_scenario(case: SendCase) -> SendObs {
             .name("s")
             .target("q")
             .sender_settle_mode(if case.settled { SenderSettleMode::Settled } else { SenderSettleMode::Unsettled })
-            .max_message_size(if case.link_split { 400u64 } else { 0 })
+            .max_message_size(if case.link_split {
+                400u64
+            } else if case.exact_fit {
+                serde_amqp::to_vec(&Serializable(Message::builder().value("cancelled0".to_string()).build())).map(|v| v.len() as u64).unwrap_or(0)
+            } else {
+                0
+            })
             .attach(&mut session),
         scen::H,
     )
@@ -453,7 +462,7 @@ fn judge_send(case: &SendCase, o: &SendObs) -> Vec<(String, String)> {
     let what = format!("{:?}", case);
     if o.partial {
         f.push((
-            format!("partial-delivery-on-the-wire large={}{}", case.large, if case.link_split { " link-split" } else { "" }),
+            format!("partial-delivery-on-the-wire large={}{}", case.large, if case.link_split { " link-split" } else if case.exact_fit { " exact-fit" } else { "" }),
             format!("{what}: a delivery was started (more=true) and never completed before the next one began; deliveries {:?}", o.delivered),
         ));
     }
@@ -471,7 +480,7 @@ fn judge_send(case: &SendCase, o: &SendObs) -> Vec<(String, String)> {
     let later: Vec<&String> = o.delivered.iter().filter(|d| d.starts_with("later")).collect();
     if o.later_hung {
         f.push((
-            format!("later-send-starved{} settled={} credit_first={}", if case.link_split { " link-split" } else { "" }, case.settled, case.credit_first),
+            format!("later-send-starved{} settled={} credit_first={}", if case.link_split { " link-split" } else if case.exact_fit { " exact-fit" } else { "" }, case.settled, case.credit_first),
             format!("{what}: a send issued after the cancellation(s) never completed although the receiver keeps granting credit; results {:?}, deliveries {:?}", o.later_results, o.delivered),
         ));
     } else {
@@ -781,9 +790,11 @@ pub fn cases(quick: bool) -> Vec<Case> {
                     for stalled in [false, true] {
                         for cancels in if deep { vec![1usize, 2, 3, 5] } else if quick { vec![1usize, 2] } else { vec![1, 2, 3] } {
                             for k in 0..=kmax_s {
-                                v.push(Case::S(SendCase { large, settled, credit_first, k, cancels, buffer, stalled, link_split: false }));
+                                v.push(Case::S(SendCase { large, settled, credit_first, k, cancels, buffer, stalled, link_split: false, exact_fit: false }));
                                 if large {
-                                    v.push(Case::S(SendCase { large, settled, credit_first, k, cancels, buffer, stalled, link_split: true }));
+                                    v.push(Case::S(SendCase { large, settled, credit_first, k, cancels, buffer, stalled, link_split: true, exact_fit: false }));
+                                } else {
+                                    v.push(Case::S(SendCase { large, settled, credit_first, k, cancels, buffer, stalled, link_split: false, exact_fit: true }));
                                 }
                             }
                         }
@@ -824,7 +835,7 @@ pub fn run(ctx: &Ctx) -> Outcome {
         }
         let cj = match c {
             Case::R(r) => json!({"kind": "recv", "frames": r.frames, "auto_accept": r.auto_accept, "k": r.k, "cancels": r.cancels, "stepwise": r.stepwise, "buffer": r.buffer, "credit": r.credit}),
-            Case::S(s) => json!({"kind": "send", "large": s.large, "settled": s.settled, "credit_first": s.credit_first, "k": s.k, "cancels": s.cancels, "buffer": s.buffer, "stalled": s.stalled, "link_split": s.link_split}),
+            Case::S(s) => json!({"kind": "send", "large": s.large, "settled": s.settled, "credit_first": s.credit_first, "k": s.k, "cancels": s.cancels, "buffer": s.buffer, "stalled": s.stalled, "link_split": s.link_split, "exact_fit": s.exact_fit}),
             Case::B(b) => json!({"kind": "send-backpressure", "k": b.k, "large": b.large, "conn_buf": b.conn_buf, "sess_buf": b.sess_buf}),
         };
         if samples.len() < 3 && progress {
@@ -877,6 +888,7 @@ fn replay(p: &std::path::Path, mut out: Outcome) -> Outcome {
             buffer: c["buffer"].as_u64().unwrap_or(1) as usize,
             stalled: c["stalled"].as_bool().unwrap_or(false),
             link_split: c["link_split"].as_bool().unwrap_or(false),
+            exact_fit: c["exact_fit"].as_bool().unwrap_or(false),
         })
     };
     let (fails, mach, _, _, trace) = run_case(&case);
